@@ -36,7 +36,7 @@ inductive PTy where
   | countOrLog                       -- interval count or the keyword `log`
   | alignFlags                       -- number or letters b/e/z per axis
   | clipAxes                         -- number or axis letters, shown as letters when that is possible
-  deriving Repr
+  deriving Repr, DecidableEq
 
 /-- the letters of a set of axes given as bit mask (x = 1, y = 2, z = 4), in the order x y z.
     NOT taken from the getter's print table: this is what a clip text MEANS -/
@@ -88,10 +88,12 @@ def denote (tab : List NamedColor) (t : PTy) (old : Val) (v : Str) : List Val :=
   | .alignFlags =>
     match convScalar 'y' (skipSpaces v) with
     | .val x _ => [x]
+    | .err .BadValue => []            -- a numeral beyond the range of the flags byte denotes nothing
     | _ => [.int (alignMask v)]
   | .clipAxes =>
     match convScalar 'y' (skipSpaces v) with
     | .val (.int n) _ => [showClip n.toNat]
+    | .err .BadValue => []
     | _ => [showClip (clipMask v)]
 
 /-- default of a coordinate property inside its point -/
@@ -120,15 +122,122 @@ def setOutcomes (tab : List NamedColor) (r dflt : Rec) (p : Str) (t : PTy) (v : 
       if blank txt then [set r p d]
       else (denote tab t old (txt.getD [])).map (set r p)
 
-/-- `n` names listed property `p`: equal without case, or (documented abbreviation length `k`) equal on
-    the first `k` characters -/
-def nameFits (k : Option Nat) (n p : Str) : Bool :=
-  match k with
-  | none => eqNoCase n p
-  | some k => eqNoCaseN n p k
+/-! ### the documented properties (written by hand from mptplot/layout.h, the description strings of the
+    getters and the comments of the setters — NOT extracted): which names stand for which listed property and
+    what kind of value it holds.  `Props/C20.lean` (`docOk`) checks the generated tables against it. -/
 
-/-- the listed properties a (possibly abbreviated) name may stand for; more than one: ambiguous -/
-def candidates (k : Option Nat) (r : Rec) (n : Str) : List Str :=
-  (r.filter (fun p => nameFits k n p.1)).map (·.1)
+/-- one way to set a listed property: the names `set` takes for it and the meaning of a value -/
+structure DocProp where
+  listed : Str
+  names : List Str
+  ty : PTy
+  deriving Repr, DecidableEq
+
+structure DocKind where
+  kind : String
+  /-- reading: a name that is not documented may be given by its first `abbr` characters -/
+  abbr : Option Nat
+  props : List DocProp
+  deriving Repr
+
+def dp (listed : String) (names : List String) (ty : PTy) : DocProp := ⟨str listed, names.map str, ty⟩
+
+/-- largest `float` (2^24 - 1) * 2^104 -/
+def fltMax : Fl := ⟨16777215, 104⟩
+
+def docs : List DocKind := [
+  { kind := "axis", abbr := some 3, props := [
+      dp "title" ["title"] .string,
+      dp "begin" ["begin"] (.scalar 'd'),
+      dp "end" ["end"] (.scalar 'd'),
+      dp "tlen" ["tlen"] (.scalar 'f'),
+      dp "exponent" ["exp", "exponent"] (.scalar 'n'),
+      dp "intervals" ["int", "intv", "intervals"] .countOrLog,
+      dp "subtick" ["sub", "subtick"] (.scalar 'y'),
+      dp "decimals" ["dec", "decimals"] (.scalar 'y'),
+      dp "lpos" ["lpos", "labelpos", "label position"] .firstChar,
+      dp "tpos" ["tpos", "titlepos", "title position"] .firstChar] },
+  { kind := "line", abbr := none, props := [
+      dp "color" ["color"] .colour,
+      dp "x1" ["x1"] (.scalar 'f'),
+      dp "x2" ["x2"] (.scalar 'f'),
+      dp "y1" ["y1"] (.scalar 'f'),
+      dp "y2" ["y2"] (.scalar 'f'),
+      dp "width" ["width"] (.ranged 0 10),
+      dp "style" ["style"] (.ranged 0 5),
+      dp "symbol" ["symbol"] (.ranged 0 8),
+      dp "size" ["size"] (.ranged 0 20)] },
+  { kind := "text", abbr := none, props := [
+      dp "color" ["color"] .colour,
+      dp "pos" ["pos"] (.point ⟨0, 0⟩ ⟨1, 0⟩),
+      dp "pos" ["x"] .pointX,
+      dp "pos" ["y"] .pointY,
+      dp "size" ["size"] (.scalar 'y'),
+      dp "align" ["align"] (.scalar 'c'),
+      dp "angle" ["angle"] (.scalar 'd'),
+      dp "value" ["value"] .string,
+      dp "font" ["font"] .string] },
+  { kind := "graph", abbr := some 2, props := [
+      dp "axes" ["axes"] .string,
+      dp "worlds" ["worlds"] .string,
+      dp "foreground" ["fg", "foreground"] .colour,
+      dp "background" ["bg", "background"] .colour,
+      dp "pos" ["pos", "position"] (.point ⟨0, 0⟩ ⟨1, 0⟩),
+      dp "scale" ["scale"] (.point ⟨0, 0⟩ fltMax),
+      dp "grid" ["grid", "type", "gridtype"] (.scalar 'y'),
+      dp "align" ["align", "alignment"] .alignFlags,
+      dp "clip" ["clip", "clipping"] .clipAxes,
+      dp "lpos" ["lpos"] (.scalar 'c')] },
+  { kind := "world", abbr := some 3, props := [
+      dp "color" ["color", "colour"] .colour,
+      dp "cycles" ["cyc", "cycles"] (.scalar 'u'),
+      dp "width" ["width"] (.ranged 0 10),
+      dp "style" ["style"] (.ranged 0 5),
+      dp "symbol" ["sym", "symbol"] (.ranged 0 8),
+      dp "size" ["size"] (.ranged 0 20),
+      dp "alias" ["alias"] .string] }]
+
+def docOf (kind : String) : Option DocKind := docs.find? (·.kind == kind)
+
+/-- the documented way(s) to set that `n` may stand for: the spelling as documented, else any case -/
+def DocKind.setHits (d : DocKind) (n : Str) : List DocProp × Bool :=
+  match d.props.filter (·.names.contains n) with
+  | [] => (d.props.filter (·.names.any (eqNoCase n)), false)
+  | l => (l, true)
+
+/-- the listed properties a name given to `get` may stand for, and whether the name is a listed name as documented
+    (then reading cannot be refused): a documented name stands for its property; any other name for the listed
+    names it agrees with on the documented abbreviation length -/
+def DocKind.getHits (d : DocKind) (n : Str) : List Str × Bool :=
+  let listed := (d.props.map (·.listed)).eraseDups
+  if listed.contains n then ([n], true)
+  else
+    match (d.props.filter (·.names.any (eqNoCase n))).map (·.listed) |>.eraseDups with
+    | [] =>
+      (match d.abbr with
+       | some k => if k ≤ n.length then listed.filter (fun p => eqNoCaseN n p k) else []
+       | none => [], false)
+    | l => (l, false)
 
 end Mpt.Record
+
+namespace Mpt.Layout
+open Mpt.Record
+
+/-- S-level type of the property a handler sets (point coordinates and clip names need the table) -/
+def Act.pty : Act → PTy
+  | .conv ty _ => .scalar ty | .string _ => .string | .colour _ _ => .colour
+  | .lattr _ _ lo hi _ => .ranged lo hi | .axisPos _ => .firstChar | .linePos _ => .scalar 'f'
+  | .fpoint _ lo hi _ => .point lo hi | .intervals _ _ _ _ => .countOrLog | .align _ => .alignFlags
+  | .clip _ => .clipAxes
+
+/-- the same with the table context: a `conv` into a coordinate of a point row sets that coordinate -/
+def Kind.ptyOf (k : Kind) (a : Act) (row : Nat) : PTy :=
+  match a with
+  | .conv ty f =>
+    match k.gets[row]? with
+    | some g => if g.ty = -2 then (if f = g.field then .pointX else .pointY) else .scalar ty
+    | none => .scalar ty
+  | a => a.pty
+
+end Mpt.Layout
